@@ -20,7 +20,7 @@ CLAIMED = {
          "Exploration: thousands (quick) to hundreds of thousands (thorough) of adversarial programs, up to 20000 steps each, nests up to depth 200/3000. A hang is reported as inconclusive (exit 2), never as a violation.",
          "Trusted: reference model; nests deeper than the stated bound are out of scope.",
          "DESIGN.md §2 C03"),
- "C04": (PBT + ": generated operation histories in lock-step against a Vec+capacity reference model",
+ "C04": (PBT + ": generated operation histories in lock-step against a Vec+capacity reference model (bulk insertion from exact-size iterators, iterators without a size hint and iterators with valid but imprecise hints)",
          "Exploration: tens of thousands (quick) to millions (thorough) of generated stack histories, every operation compared against a reference model; failures shrunk to a minimal history. Does not establish absence.",
          "Trusted: proptest, the harness's Vec-based model, rustc. Zero-element insertion above a lowered maximum and is_full above the maximum are deliberately unconstrained.",
          "DESIGN.md §2 C04"),
@@ -28,56 +28,56 @@ CLAIMED = {
          "Exploration with an exhaustive component: all 4^n gene-class sequences for n <= 8 (quick) / 10 (thorough) are enumerated completely; random genomes up to 2000 genes beyond that.",
          "Trusted: the reference parser in harness/src/gen_vm.rs; opening counts (IfElse 2, When/Unless/DupBlock 1) are taken from the property statement, not from the crate.",
          "DESIGN.md §2 C05"),
- "C10": (PBT + ": tagged parents through all crossover impls with a generated random stream, generated misuse of the exchange primitives, seeded coverage of all two-point segments (len <= 6), exact 2^-len law of uniform-crossover source patterns (Chernoff bound, alpha 1e-12, confirmation stage)",
-         "Exploration: hundreds of thousands (quick) to millions (thorough) of generated recombinations and primitive calls, complete segment coverage for lengths 0..6 over 20000+ seeds, distribution test for lengths 1..4.",
+ "C10": (PBT + ": tagged parents through all crossover impls with a generated random stream, generated misuse of the exchange primitives, seeded coverage of all two-point segments (len <= 6) and of the segment classes for len 33..257, exact 2^-len law of uniform-crossover source patterns plus per-position rates and lag-agreement statistics on parents of 70..520 genes (Chernoff bound, alpha 1e-12, confirmation stage)",
+         "Exploration: hundreds of thousands (quick) to millions (thorough) of generated recombinations and primitive calls, parents of up to 60 (and, in a second pass, 700; thorough 500 / 3000) genes, complete segment coverage for lengths 0..6 over 20000+ seeds, pattern law for lengths 1..4, independence at a distance (lags 1..257) for lengths 70..520.",
          "Trusted: rand 0.9 StdRng; the coverage check assumes every admissible segment has probability >= 1/(len+1)^2.",
          "DESIGN.md §2 C10"),
  "C11": (PBT + ": position-tagged genomes through WithRate / WithOneOverLength / all three Umad constructors with a generated random stream; structural parse of the child (slot grammar P0 N0 P1 N1 ...), generator-provenance of new genes, exact degenerate-rate cases",
-         "Exploration: a million (quick) to tens of millions (thorough) generated mutations over four flip genome types and three UMAD genome types, lengths 0..40/120.",
+         "Exploration: a million (quick) to tens of millions (thorough) generated mutations over four flip genome types and three UMAD genome types, lengths 0..40/120 and, in a second pass, up to 700/6000.",
          "Trusted: the harness's slot-grammar parser; Bitstring UMAD is checked on sizes only (bits cannot carry tags).",
          "DESIGN.md §2 C11"),
  "C12": ("seeded statistical property testing: exact-law binomial counts per (operator, configuration) decided by a Chernoff/KL bound (alpha 1e-12 per count) with a confirmation stage; p = 0 and p = 1 decided exactly",
-         "Exploration over the random stream: ~260 configurations x 2e6 (quick) / 4e7 (thorough) seeded trials, ~1500 statistics each compared with its exactly known law; false-alarm probability < 1e-15 per run; detects rate errors >= ~0.003 (quick) at p = 0.5.",
+         "Exploration over the random stream: ~290 configurations x 2e6 (quick) / 4e7 (thorough) seeded trials, ~9700 statistics (incl. per-position rates and lag-agreement statistics on genomes of 130 and 600 genes) each compared with its exactly known law; false-alarm probability < 1e-15 per run; detects rate errors >= ~0.003 (quick) at p = 0.5.",
          "Trusted: rand 0.9 StdRng / Bernoulli; independence of the trials counted together (only disjoint gene pairs are pooled). Not detectable: < vs <=, f32 rounding of a rate, deviations below the stated resolution.",
          "DESIGN.md §1 Statistical method, §2 C12"),
  "C06": (PBT + ": generated populations x generated selector composition trees (real WeightedPair / DynWeighted / reference / erased nodes) with a generated random stream; pointer-identity membership oracle and a small model of which documented errors a configuration justifies",
-         "Exploration: hundreds of thousands (quick) to millions (thorough) of (population, selector tree, random stream) cases with 1-3 draws each.",
+         "Exploration: hundreds of thousands (quick) to millions (thorough) of (population, selector tree, random stream) cases with 1-3 draws each, a quarter of them alternating one selector value between two populations.",
          "Trusted: the harness's delegating enums (combinator nodes are the real types) and its model of justified errors; Ok(member) is also accepted when lexicase is configured with more cases than results.",
          "DESIGN.md §2 C06"),
  "C07": (PBT + " for per-draw invariants (sample recovered from logged comparisons) plus seeded statistical tests of the k-subset uniformity law and the enumerated winner law (Chernoff/KL, alpha 1e-12, confirmation stage)",
-         "Exploration: hundreds of thousands of generated (population, k, stream) cases; for every n <= 7, k <= n the full subset and winner laws against 1e6 (quick) / 1e7 (thorough) seeded draws.",
+         "Exploration: hundreds of thousands of generated (population, k, stream) cases; for every n <= 7, k <= n the full subset and winner laws against 1e6 (quick) / 1e7 (thorough) seeded draws; for 14 larger configurations (n up to 300, k up to 40) the inclusion, pair co-inclusion and pooled winner-rank laws; the named constructors.",
          "Trusted: rand StdRng; the sampled subset is observed through the individuals' Ord::cmp, so an implementation comparing more than k individuals is judged by the winner law only.",
          "DESIGN.md §2 C07"),
  "C08": ("seeded statistical property testing against the exact lexicase law obtained by enumerating all case orders with an independent definition of 'better'; per-draw exact support check (winner has positive probability, never Pareto-dominated)",
-         "Exploration: 400 (quick) / 8000 (thorough) generated result matrices in both polarities x 4e5 / 2e6 seeded draws each.",
-         "Trusted: the harness's enumerator; only configured case count = number of results is judged.",
+         "Exploration: 400 (quick) / 8000 (thorough) generated result matrices (up to 8 x 5) plus 12 / 120 larger ones (up to 100 x 8) in both polarities x 4e5 / 2e6 seeded draws each; two fifths of them with fewer configured cases than results.",
+         "Trusted: the harness's enumerator. For a configured count below the number of results every reading of 'the considered cases' (any fixed subset of that size, or a random one) is accepted.",
          "DESIGN.md §2 C08"),
- "C13": (PBT + " for per-selection invariants through marker members (exactly one member used, never weight 0, construction rejected iff a partial sum overflows) plus seeded statistical tests of member frequencies = w_i / sum(w) over all binary tree shapes up to 5 leaves, real chains and dynamic lists",
-         "Exploration: hundreds of thousands of generated weighted shapes and ~190 law configurations x 4e5 (quick) / 5e6 (thorough) draws.",
+ "C13": (PBT + " for per-selection invariants through marker members (exactly one member used, never weight 0, construction rejected iff a partial sum overflows) plus seeded statistical tests of member frequencies = w_i / sum(w) over all binary tree shapes up to 5 leaves, real chains and dynamic lists (up to 300 members, also lists used for selections while they are still being extended)",
+         "Exploration: hundreds of thousands of generated weighted shapes and ~200 law configurations x 4e5 (quick) / 5e6 (thorough) draws.",
          "Trusted: rand Bernoulli / choose_weighted; the payload of WeightSumOverflow is not compared.",
          "DESIGN.md §2 C13"),
- "C09": (PBT + ": generated (population size, rounds, serial/parallel, rayon pool size, failure positions, delay script) histories with an instrumented child maker; invariants over the history (atomic replacement, all-or-nothing on failure, every call saw the old population, pairwise distinct random words)",
-         "Exploration: 12000 (quick) / 400000 (thorough) generated multi-round histories over pool sizes 1..16 and sizes 0..1000. Interleavings are perturbed by pool size and a delay script, not enumerated; this is the weakest claim of the set.",
+ "C09": (PBT + ": generated (population kind Vec / VecDeque / BTreeSet / HashSet, population size, rounds, serial/parallel, rayon pool size, failure positions, delay script) histories with an instrumented child maker; invariants over the history (atomic replacement, all-or-nothing on failure, every call saw the old population, pairwise distinct random words)",
+         "Exploration: 12000 (quick) / 400000 (thorough) generated multi-round histories over pool sizes 1..16, sizes 0..1000 and four population kinds (the set kinds merge equal children, so the size can change between steps). Interleavings are perturbed by pool size and a delay script, not enumerated; this is the weakest claim of the set.",
          "Trusted: rayon; the thread generator's words are treated as pairwise distinct when children have live randomness (64-bit collisions are negligible).",
          "DESIGN.md §2 C09"),
  "C14": (PBT + ": generated composition trees of the real combinators around logging probe operators, differential against a reference interpreter of the tree (call order, inputs, words drawn at each stream offset, stop at first failure, failing part recovered from the error); wrapper operators against the wrapped parts run by hand from equal generator states",
          "Exploration: hundreds of thousands (quick) to millions (thorough) of generated compositions (depth <= 6) and wrapper pipelines.",
          "Trusted: the reference interpreter; the failing part is read from Debug/Display text of the crate's error types (fields private) and reported unobservable if that text changes.",
          "DESIGN.md §2 C14"),
- "C15": (PBT + ": order laws and operator agreement on exhaustive extreme triples and generated values, result vectors vs independently computed totals, individuals vs their results, generator/scorer provenance with a recording scorer",
+ "C15": (PBT + ": order laws and operator agreement on exhaustive extreme triples and generated values, result vectors (built through 12 kinds of source iterator, incl. imprecise size hints) vs independently computed totals, individuals vs their results, generator/scorer provenance with a recording scorer",
          "Exploration with an exhaustive component: all 343 triples over the 7 extreme i64 values; hundreds of thousands (quick) to millions (thorough) of generated cases.",
          "Trusted: i128 reference sums; TestResults == is not required to agree with cmp.",
          "DESIGN.md §2 C15"),
- "C16": (PBT + ": call histories over a registry of operators, each call run twice from cloned word-counting generators (results, words consumed, next word), repeats within a history, a third run on another thread; Push programs run twice and with permuted input declaration order",
+ "C16": (PBT + ": call histories over a registry of operators, each call run twice from cloned instrumented generators (results, words consumed, next word, sequence of generator entry points used), repeats within a history, a third run on another thread; Push programs run twice and with permuted input declaration order",
          "Exploration: 150000 + 60000 (quick) to millions (thorough) of generated histories / programs; absence of hidden inputs can only be refuted by sampling.",
          "Trusted: the word-counting generator wrapper around StdRng.",
          "DESIGN.md §2 C16"),
- "C17": ("generated compile probe (one erased flavour per line, cargo check JSON diagnostics) deciding existence of all 280 flavours, then " + PBT + ": concrete value vs every erased flavour from cloned word-counting generators (result identity, error text and downcast, words consumed)",
+ "C17": ("generated compile probe (one erased flavour per line, cargo check JSON diagnostics) deciding existence of all 280 flavours, then " + PBT + ": concrete value vs every erased flavour from cloned instrumented generators (result identity, error text and downcast, words consumed, next word, sequence of next_u32 / next_u64 / fill_bytes(len) calls), with probe implementations that draw through every generator entry point",
          "Exploration: all 280 (trait, pointer, auto-trait, error type) flavours are type-checked and each is exercised on thousands of generated cases.",
          "Trusted: rustc diagnostics codes (E0277/E0599/E0271 = missing impl); the companion crate harness-dyn.",
          "DESIGN.md §2 C17"),
  "C18": (PBT + " for sizes and membership (counting / tagging element generator, all 14 conversion flavours + macro, pointer identity) plus seeded statistical tests of member frequencies = multiplicity / length",
-         "Exploration: sizes 0..300 (2000 thorough) plus boundary sizes to 5000 and 100000 once; 15 choice flavours x lengths 1..8 x 3e5 (quick) / 5e6 (thorough) draws.",
+         "Exploration: sizes 0..300 (2000 thorough) plus boundary sizes to 5000 and 100000 once; 15 choice flavours x lengths 1..200 x 1e6 (quick) / 1e7 (thorough) draws, and the Vec / slice flavours built once over 255..65537 members.",
          "Trusted: rand Uniform / Choose (the law is about how the crate uses them).",
          "DESIGN.md §2 C18"),
  "C19": ("seeded source generation + generated compile probes and a generated test program: builder call chains are produced from a model of the type-state automaton; must-compile / must-not-compile expectations are decided per line from cargo check JSON diagnostics, legal chains are executed and compared with the model's predicted state",
